@@ -241,7 +241,8 @@ class LinkSystem(System):
             else:
                 for tctx in ("top", "quote"):
                     for f1, f2 in itertools.product(FORMS, repeat=2):
-                        for n1, n2 in itertools.product(["aa", "bb", "zz"], repeat=2):
+                        # ("AA": a case variant - of a slug it names nothing, whatever an earlier link resolved to)
+                        for n1, n2 in itertools.product(["aa", "bb", "zz", "AA"], repeat=2):
                             for lctx in ("top", "quote"):
                                 yield {"targets": targets, "tctx": tctx, "links": [(f1, n1, lctx), (f2, n2, "top")], "order": "after"}
 
